@@ -611,8 +611,10 @@ Definition apply_dop (o : dop) (d : dframe) : option dframe :=
           end
       end
   | DPackPartitions nout =>
-      (* _with_hilbert_distance_column: geometry = self.geometry (meta's name);
-         assign(hilbert_distance=..); set_index('hilbert_distance'); repartition *)
+      (* _with_hilbert_distance_column: frame = self.reset_index(drop=True) when the index is
+         already named hilbert_distance (same state); geometry = frame.geometry (meta's name);
+         assign(hilbert_distance=..); set_index('hilbert_distance', shuffle_method='tasks');
+         repartition *)
       match partition_sindex_key d with
       | None => None
       | Some _ => Some (mkD m (shuffle_parts OCopyShallow ps nout))
